@@ -113,6 +113,40 @@ Theorem C17_diff_generic :
 Proof. exact curve_diff. Qed.
 Print Assumptions C17_diff_generic.
 
+Theorem C17_refinement_generic :
+  forall (integ : R -> R -> R) (G : R -> R),
+    (forall a b, integ a b = G b - G a) ->
+    forall grid1 grid2 m1 m2 W1 W2,
+      rise_curve Rops integ grid1 m1 = Ok W1 -> rise_curve Rops integ grid2 m2 = Ok W2 ->
+      forall i j i' j' d,
+        (i < length grid1)%nat -> (j < length grid1)%nat ->
+        (i' < length grid2)%nat -> (j' < length grid2)%nat ->
+        nth i grid1 d = nth i' grid2 d -> nth j grid1 d = nth j' grid2 d ->
+        nth j W1 d - nth i W1 d = nth j' W2 d - nth i' W2 d.
+Proof. exact curve_shared_levels. Qed.
+Print Assumptions C17_refinement_generic.
+
+Theorem C17_refinement_common_shift_generic :
+  forall (integ : R -> R -> R) (G : R -> R),
+    (forall a b, integ a b = G b - G a) ->
+    forall grid1 grid2 m1 m2 W1 W2,
+      rise_curve Rops integ grid1 m1 = Ok W1 -> rise_curve Rops integ grid2 m2 = Ok W2 ->
+      exists c, forall i i' d,
+        (i < length grid1)%nat -> (i' < length grid2)%nat ->
+        nth i grid1 d = nth i' grid2 d -> nth i' W2 d = nth i W1 d + c.
+Proof. exact curve_common_shift. Qed.
+Print Assumptions C17_refinement_common_shift_generic.
+
+Theorem C17_monotone_generic :
+  forall (integ : R -> R -> R) (G : R -> R),
+    (forall a b, integ a b = G b - G a) ->
+    (forall a b, a <= b -> 0 <= integ a b) ->
+    forall grid m W, rise_curve Rops integ grid m = Ok W ->
+      (forall i j d, (i <= j)%nat -> (j < length grid)%nat -> nth i grid d <= nth j grid d) ->
+      forall i j d, (i <= j)%nat -> (j < length grid)%nat -> nth i W d <= nth j W d.
+Proof. exact curve_monotone. Qed.
+Print Assumptions C17_monotone_generic.
+
 (** The command's table: one row per level of the measured master curve,
     ascending, (level, measured, simulated); the simulated column is the curve
     on those levels centred on the mean of the measured column. *)
